@@ -85,7 +85,9 @@ def draw_stream_cfg(rng, frag, sources=('rec',), max_elems=8, terminals=('comple
             'source': rng.choice(sources), 'handler_delay': draw_wait(rng, timed)}
 
 
-WITH_WS = ('bytes', 'bytes', 'bytes', 'messages', 'messages', 'ws')
+# 'aiohttp', 'quart' (asyncwebsockets client, quart server) and 'channels' run the repository's transport glue over
+# scripted sockets (rv/gluelinks.py)
+WITH_WS = ('bytes', 'bytes', 'bytes', 'messages', 'messages', 'ws', 'aiohttp', 'quart', 'channels')
 
 
 def draw_config(rng, links_allowed=('bytes', 'messages'),
